@@ -20,15 +20,15 @@ def mc(module, quick, thorough=None, **kw):
 # specification-level model checking per property: Level-0 state machines and the Level-1
 # design models the property rests on (quick: smaller bounds; thorough: the full bounds)
 MC = {
-    "C01": [mc("WM", "MC_WM_k4"), mc("WM", "MC_WM_k4_long", tiers=("thorough",)), mc("RSQ", "MC_RSQ_bs2_quick", "MC_RSQ_bs2"), mc("RSQ", "MC_RSQ_bs4_quick", "MC_RSQ_bs4")],
-    "C02": [mc("HuffWM", "MC_HuffWM_k4_quick", "MC_HuffWM_k4"), mc("RSQ", "MC_RSQ_bs2_quick", "MC_RSQ_bs2")],
-    "C03": [mc("WM", "MC_WM_k2"), mc("HuffWM", "MC_HuffWM_k2_quick", "MC_HuffWM_k2"), mc("RSBin", "MC_RSBin_wide_quick", "MC_RSBin_wide")],
-    "C04": [mc("RSQ", "MC_RSQ_bs2_quick", "MC_RSQ_bps4"), mc("RSBin", "MC_RSBin_narrow_quick", "MC_RSBin_narrow"), mc("DArr", "MC_DArr_quick", "MC_DArr"),
+    "C01": [mc("WM", "MC_WM_k4"), mc("WM", "MC_WM_k4_long", tiers=("thorough",)), mc("RSQ", "MC_RSQ_bs2_quick", "MC_RSQ_bs2_deep"), mc("RSQ", "MC_RSQ_bs4_quick", "MC_RSQ_bs4_deep")],
+    "C02": [mc("HuffWM", "MC_HuffWM_k4_quick", "MC_HuffWM_k4"), mc("RSQ", "MC_RSQ_bs2_quick", "MC_RSQ_bs2_deep")],
+    "C03": [mc("WM", "MC_WM_k2"), mc("HuffWM", "MC_HuffWM_k2_quick", "MC_HuffWM_k2"), mc("RSBin", "MC_RSBin_wide_quick", "MC_RSBin_wide_deep")],
+    "C04": [mc("RSQ", "MC_RSQ_bs2_quick", "MC_RSQ_bps4"), mc("RSBin", "MC_RSBin_narrow_quick", "MC_RSBin_narrow_deep"), mc("DArr", "MC_DArr_quick", "MC_DArr_deep"),
             mc("Pfs", "MC_Pfs_quick", "MC_Pfs"), mc("MC_BitVecLines", "MC_BitVecLines", "MC_BitVecLines_thorough")],
-    "C05": [mc("RSQ", "MC_RSQ_bs2_quick", "MC_RSQ_bs2"), mc("RSQ", "MC_RSQ_bs4_quick", "MC_RSQ_bs4"), mc("RSQ", "MC_RSQ_bps4", tiers=("thorough",))],
-    "C06": [mc("RSBin", "MC_RSBin_narrow_quick", "MC_RSBin_narrow"), mc("RSBin", "MC_RSBin_wide_quick", "MC_RSBin_wide")],
-    "C07": [mc("DArr", "MC_DArr_quick", "MC_DArr")],
-    "C08": [mc("MC_LibBV", "MC_LibBV"), mc("MC_BitVecLines", "MC_BitVecLines", "MC_BitVecLines_thorough")],
+    "C05": [mc("RSQ", "MC_RSQ_bs2_quick", "MC_RSQ_bs2_deep"), mc("RSQ", "MC_RSQ_bs4_quick", "MC_RSQ_bs4_deep"), mc("RSQ", "MC_RSQ_bps4", tiers=("thorough",))],
+    "C06": [mc("RSBin", "MC_RSBin_narrow_quick", "MC_RSBin_narrow_deep"), mc("RSBin", "MC_RSBin_wide_quick", "MC_RSBin_wide_deep")],
+    "C07": [mc("DArr", "MC_DArr_quick", "MC_DArr_deep")],
+    "C08": [mc("MC_LibBV", "MC_LibBV", "MC_LibBV_deep"), mc("MC_BitVecLines", "MC_BitVecLines", "MC_BitVecLines_thorough")],
     "C09": [mc("Pfs", "MC_Pfs_quick", "MC_Pfs"), mc("Pfs", "MC_Pfs_r4", tiers=("thorough",))],
     "C12": [mc("MC_LibIt", "MC_LibIt")],
     "C13": [mc("MC_QVec", "MC_QVec")],
@@ -125,3 +125,13 @@ for _p in list(NOT_APPLICABLE):
 
 for _p, _l in MC.items():
     PLAN[_p]["mc"] = _l
+
+# model-fidelity report (never a verdict): which Level-1 tables are recomputed at the real constants
+FIDELITY = {"C01": ["WM", "RSQ"], "C02": ["Huff4"], "C03": ["Huff2", "WM"], "C05": ["RSQ"], "C06": ["RSBin"], "C07": ["DArr"], "C15": ["Huff4", "Huff2"]}
+for _p, _f in FIDELITY.items():
+    PLAN[_p]["fidelity"] = _f
+PLAN["C12"]["apalache"] = ("LibItInd.tla", [
+    ("Init => IndInv", ["--init=Init", "--inv=IndInv", "--length=0"]),
+    ("IndInv /\\ Next => IndInv'", ["--init=IndInit", "--inv=IndInv", "--length=1"]),
+    ("IndInv => Safety", ["--init=IndInit", "--inv=Safety", "--length=0"]),
+])
